@@ -550,6 +550,8 @@ paf24_read_s (SF_PRIVATE *psf, short *ptr, sf_count_t len)
 
 	iptr = ubuf.ibuf ;
 	bufferlen = ARRAY_LEN (ubuf.ibuf) ;
+	/* Whole frames only : paf24_read / paf24_write count in frames. */
+	bufferlen -= bufferlen % ppaf24->channels ;
 	while (len > 0)
 	{	readcount = (len >= bufferlen) ? bufferlen : (int) len ;
 		count = paf24_read (psf, ppaf24, iptr, readcount) ;
@@ -592,6 +594,8 @@ paf24_read_f (SF_PRIVATE *psf, float *ptr, sf_count_t len)
 
 	iptr = ubuf.ibuf ;
 	bufferlen = ARRAY_LEN (ubuf.ibuf) ;
+	/* Whole frames only : paf24_read / paf24_write count in frames. */
+	bufferlen -= bufferlen % ppaf24->channels ;
 	while (len > 0)
 	{	readcount = (len >= bufferlen) ? bufferlen : (int) len ;
 		count = paf24_read (psf, ppaf24, iptr, readcount) ;
@@ -620,6 +624,8 @@ paf24_read_d (SF_PRIVATE *psf, double *ptr, sf_count_t len)
 
 	iptr = ubuf.ibuf ;
 	bufferlen = ARRAY_LEN (ubuf.ibuf) ;
+	/* Whole frames only : paf24_read / paf24_write count in frames. */
+	bufferlen -= bufferlen % ppaf24->channels ;
 	while (len > 0)
 	{	readcount = (len >= bufferlen) ? bufferlen : (int) len ;
 		count = paf24_read (psf, ppaf24, iptr, readcount) ;
@@ -719,6 +725,8 @@ paf24_write_s (SF_PRIVATE *psf, const short *ptr, sf_count_t len)
 
 	iptr = ubuf.ibuf ;
 	bufferlen = ARRAY_LEN (ubuf.ibuf) ;
+	/* Whole frames only : paf24_read / paf24_write count in frames. */
+	bufferlen -= bufferlen % ppaf24->channels ;
 	while (len > 0)
 	{	writecount = (len >= bufferlen) ? bufferlen : (int) len ;
 		for (k = 0 ; k < writecount ; k++)
@@ -773,6 +781,8 @@ paf24_write_f (SF_PRIVATE *psf, const float *ptr, sf_count_t len)
 
 	iptr = ubuf.ibuf ;
 	bufferlen = ARRAY_LEN (ubuf.ibuf) ;
+	/* Whole frames only : paf24_read / paf24_write count in frames. */
+	bufferlen -= bufferlen % ppaf24->channels ;
 	while (len > 0)
 	{	writecount = (len >= bufferlen) ? bufferlen : (int) len ;
 		for (k = 0 ; k < writecount ; k++)
@@ -804,6 +814,8 @@ paf24_write_d (SF_PRIVATE *psf, const double *ptr, sf_count_t len)
 
 	iptr = ubuf.ibuf ;
 	bufferlen = ARRAY_LEN (ubuf.ibuf) ;
+	/* Whole frames only : paf24_read / paf24_write count in frames. */
+	bufferlen -= bufferlen % ppaf24->channels ;
 	while (len > 0)
 	{	writecount = (len >= bufferlen) ? bufferlen : (int) len ;
 		for (k = 0 ; k < writecount ; k++)
